@@ -507,6 +507,37 @@ Proof.
   apply next_id_gt; [apply (inv_hist_sorted s H)|exact Hv].
 Qed.
 
+(* reader(serial=) picks the NEWEST retained version carrying that serial *)
+Lemma find_serial_rev_split x l v : find_serial_rev x l = Some v ->
+  exists l1 l2, l = l1 ++ v :: l2 /\ forall u, In u l1 -> serial_of (vcont u) <> Some x.
+Proof.
+  induction l as [|a l IH]; cbn; [discriminate|].
+  destruct (serial_of (vcont a)) as [s'|] eqn:Es.
+  - destruct (s' =? x) eqn:E.
+    + intros H; inversion H; subst. exists [], l. split; [reflexivity|]. intros u [].
+    + intros H. destruct (IH H) as [l1 [l2 [-> Hn]]]. exists (a :: l1), l2. split; [reflexivity|].
+      intros u [<-|Hu]; [rewrite Es; intros X; inversion X; lia|apply Hn; exact Hu].
+  - intros H. destruct (IH H) as [l1 [l2 [-> Hn]]]. exists (a :: l1), l2. split; [reflexivity|].
+    intros u [<-|Hu]; [rewrite Es; discriminate|apply Hn; exact Hu].
+Qed.
+
+Theorem open_serial_newest s x s' h i c :
+  Inv s -> step s (OpenSerial x) = Ok (s', ROpened h i c) ->
+  forall v', In v' (versions s) -> serial_of (vcont v') = Some x -> vid v' <= i.
+Proof.
+  intros H. cbn [step]. destruct (find_serial_rev x (rev (versions s))) as [v|] eqn:E; [|discriminate].
+  intros X. inversion X; subst. clear X. intros v' Hv' Hs.
+  destruct (find_serial_rev_split _ _ _ E) as [l1 [l2 [El Hn]]].
+  assert (Evs : versions s = (rev l2 ++ [v]) ++ rev l1).
+  { rewrite <- (rev_involutive (versions s)), El, rev_app_distr. cbn. reflexivity. }
+  pose proof (inv_versions_sorted s H) as Hsort. rewrite Evs in Hsort, Hv'.
+  apply in_app_or in Hv'. destruct Hv' as [Hv'|Hv'].
+  - apply in_app_or in Hv'. destruct Hv' as [Hv'|[<-|[]]]; [|lia].
+    assert (vid v' < vid v); [|lia].
+    apply sorted_app_l in Hsort. eapply sorted_app_lt; [exact Hsort|exact Hv'|left; reflexivity].
+  - exfalso. apply (Hn v'); [apply in_rev; exact Hv'|exact Hs].
+Qed.
+
 (* ------------------------------------------------------------------ statements over all histories *)
 
 Definition after (ops : list op) : st := run_ops init ops.
@@ -577,3 +608,8 @@ Lemma T_commit_id_fresh ops s' r w :
   wtxn (after ops) = Some w -> wchanged w = true -> step (after ops) WCommit = Ok (s', r) ->
   hist s' = hist (after ops) ++ [mkV (wid w) (wcont w)] /\ forall v, In v (hist (after ops)) -> vid v < wid w.
 Proof. apply commit_id_fresh. apply reachable_inv. Qed.
+
+Lemma T_open_serial_newest ops x s' h i c :
+  step (after ops) (OpenSerial x) = Ok (s', ROpened h i c) ->
+  forall v', In v' (versions (after ops)) -> serial_of (vcont v') = Some x -> vid v' <= i.
+Proof. apply open_serial_newest. apply reachable_inv. Qed.
